@@ -11,7 +11,7 @@ from checks import docs, loadlib, loadcheck
 PROP = 'C05'
 TARGETS = ['theories/Proofs/TokenizerProofs.v', 'theories/Proofs/GrammarObligations.v', 'theories/Proofs/LayoutProofs.v',
            'theories/Proofs/LineOffsetProofs.v', 'theories/Proofs/WriterFlagProofs.v', 'theories/Proofs/WriterUnitsProofs.v',
-           'theories/Proofs/ParseTraceProofs.v', 'theories/Proofs/LinePreservationProofs.v', 'theories/Run/RunLoad.v']
+           'theories/Proofs/ParseTraceProofs.v', 'theories/Proofs/LinePreservationProofs.v', 'theories/Run/RunLoad.v', 'theories/Proofs/EditLocalityProofs.v']
 RULE = ('edit locality: a MODULE with 0..64 children of 8 kinds in mixed order x histories of 2..10 single-object edits through the API (push of a new object, long identifier changed, order-preserving removal, swap_remove) with the text written after every step - each step may change only the lines of its object; layout: valid documents in canonical element order with random line breaks / blank lines between tokens, block-level comments of both '
         'kinds, /begin and /end on the line of their tag, no raw line breaks in strings (documents outside this class are filtered out and '
         'counted); plus the written text of every document fed back (own format must be a byte-exact fixpoint); '
@@ -49,6 +49,9 @@ def marker_string_cases():
 
 def gen_cases(rng, tier):
     cases = marker_string_cases()
+    cases.append({'text': 'ASAP2_VERSION 1 71\n/begin PROJECT p ""\n  /begin MODULE m ""\n    /begin A2ML\n      block "IF_DATA" long; /end A2ML\n'
+                          '    /begin MEASUREMENT m1 "" UBYTE NO_COMPU_METHOD 0 0 0 255\n    /end MEASUREMENT\n  /end MODULE\n/end PROJECT\n',
+                  'strict': True, 'cycles': 1, 'kind': 'a2ml-end-same-line'})
     n = 300 if tier == 'quick' else 8000
     tries = 0
     while len(cases) < n and tries < n * 6:
@@ -99,9 +102,20 @@ def oracle(c, r, cases, res):
     if tin is None or tout is None or len(tin) != len(tout):
         return None if loadlib.reordered_blocks(r.node) else 'token count differs (C02)'
     if not loadlib.reordered_blocks(r.node):
+        shift, a2ml_same_line = 0, 0
         for i, (a, b) in enumerate(zip(tin, tout)):
-            if a[2] != b[2]:
+            if a[2] + shift != b[2]:
+                # the one known exception: /end A2ML on the last line of the A2ML text is written on a line of its own (the block
+                # parser stores the constant 1 as end offset); everything behind it is one line further down
+                in_lines = c['text'].split('\n')
+                if (a[0] == 'end' and i + 1 < len(tin) and tin[i + 1][1] == 'A2ML' and i > 0 and tin[i - 1][0] == 'a2ml'
+                        and 0 < a[2] <= len(in_lines) and in_lines[a[2] - 1].split('/end')[0].strip() != '' and b[2] == a[2] + shift + 1):
+                    shift += 1
+                    a2ml_same_line += 1
+                    continue
                 return 'token %d (%s %r) moves from line %d to line %d' % (i, a[0], a[1][:30], a[2], b[2])
+        if a2ml_same_line:
+            return 'A2ML-END-SAME-LINE: /end A2ML stands on the last line of the A2ML text and is written on a line of its own (%d block(s)); every other token keeps its line relative to it' % a2ml_same_line
     # the writer's own format is a fixpoint, byte for byte
     if r.cycles:
         cy = r.cycles[0]
@@ -111,6 +125,8 @@ def oracle(c, r, cases, res):
 
 
 def classify_known(c, why, r):
+    if why.startswith('A2ML-END-SAME-LINE'):
+        return 'a2ml-end-on-the-line-of-the-text'
     return None
 
 
